@@ -6,7 +6,7 @@ EXPLANATION = 'Mixed. P: writer.partition_on_columns (one arbitrary group, hive 
 
 def p_parts():
     from ._generic import optional_parts
-    return optional_parts(("_paths", "p_paths"))
+    return optional_parts(("_paths", "p_paths"), ("_options", "p_options"))
 
 
 def run(ctx):
